@@ -90,6 +90,9 @@ def item_pool(sig, extra_self=False):
     for kind, name, _ in sig:
         if kind in ("po", "pk", "ko"):
             pool.append(("k", name))
+        else:
+            # a keyword named like the *args / **kw parameter itself: Python puts it into **kw (or rejects it without **kw)
+            pool.append(("k", name))
     pool.append(("k", "zz"))
     pool.append(("k", "data-x"))
     pool.append(("k", "class"))
